@@ -39,7 +39,7 @@ def run(tier, rep):
                 if (x.get("extra") or {}).get("spec_mismatch", 0):
                     raise vlib.Inconclusive("the reference navigator deviates from Nav.tla's DomStep on %d steps" % x["extra"]["spec_mismatch"])
     tr = os.path.join(vlib.scratch(), "c11.trace.ndjson")
-    recs, _ = vlib.run_vh(["c11-drive", tr, "2500" if thorough else "250"], timeout=3000)
+    recs, _ = vlib.run_vh(["c11-drive", tr, "25000" if thorough else "250"], timeout=3000)
     for x in recs:
         if x.get("kind") == "violation":
             rep.violation(x)
